@@ -331,6 +331,8 @@ def run(ctx):
         raise BrokenCheck(str(e))
     finally:
         pool.close()
+    from tcv import postpublish
+    postpublish.probe(ctx)
 
 
 def _run(ctx, pool, root0, dtasks):
